@@ -270,3 +270,54 @@ def run(ctx):
         ctx.anchor_missing(RULE, 'unchecked reads in the list modules', ['C10', 'C13'], n_list, 10)
     if n_seg < 4:
         ctx.anchor_missing(RULE, 'unchecked bucket/entry accesses in the segment tree', ['C10'], n_seg, 4)
+    run_unsafe_surface(ctx)
+
+
+# ---- the unsafe surface of the crate ------------------------------------------------------------------------------------------
+UNSAFE_PATH_PREFIXES = ('core::ptr::', 'std::ptr::', 'core::intrinsics::', 'core::mem::transmute', 'std::mem::transmute', 'core::mem::zeroed', 'std::mem::zeroed',
+                        'core::mem::uninitialized', 'std::mem::uninitialized', 'core::mem::forget', 'std::mem::forget', 'core::hint::unreachable_unchecked',
+                        'core::mem::manually_drop', 'core::mem::maybe_uninit', 'core::slice::raw', 'alloc::alloc::', 'std::alloc::')
+UNSAFE_NAMES = {'set_len', 'from_raw_parts', 'from_raw_parts_mut', 'from_raw', 'into_raw', 'unwrap_unchecked', 'assume_init', 'assume_init_read', 'assume_init_mut', 'assume_init_ref',
+                'as_mut_ptr', 'as_ptr', 'unchecked_add', 'unchecked_sub', 'unchecked_mul', 'unchecked_shl', 'unchecked_shr', 'transmute', 'transmute_copy', 'read_unaligned', 'write_unaligned',
+                'copy_nonoverlapping', 'drop_in_place', 'get_many_unchecked_mut', 'swap_unchecked', 'split_at_unchecked', 'split_at_mut_unchecked', 'leak'}
+SURFACE = {'get_unchecked', 'get_unchecked_mut'}
+STD_MACROS = ('"vec"', '"format_args"', '"assert', '"debug_assert', '"panic"', '"unreachable"', '"write"', '"println"', '"format"', '"matches"', '"todo"', '"unimplemented"', 'Derive', 'AstPass', 'Desugaring')
+
+
+def run_unsafe_surface(ctx):
+    """What the rules decide about memory rests on one unsafe idiom: unchecked element access with an index the rules account for
+    (NULL / PROVENANCE / UNCHECKED).  Ownership, initialisation and lifetime of what the arenas hold are the compiler's business
+    as long as nothing else unsafe touches them: a raw read or write, a transmute, a forgotten or manually dropped value, a
+    length set by hand is outside everything decided here - reported as such (fail closed), whatever it is used for."""
+    prog = ctx.prog
+    n_surface = 0
+    for fn in prog.fns.values():
+        if not fn.info.get('mir'):
+            continue
+        b = fn.body
+        for c in b.calls:
+            if prog.classify(c) != 'std':
+                continue
+            cal = c.extra.get('callee') or {}
+            path = cal.get('path') or ''
+            nm = c.callee_name()
+            if c.span and len(c.span) > 3 and c.span[3] and any(any(m_ in str(e_) for m_ in STD_MACROS) for e_ in c.span[3]):
+                continue            # produced by a macro of the standard library (format_args!, vec!, assertions) - not by one of the crate's own
+            if nm in SURFACE:
+                n_surface += 1
+                continue
+            if path.startswith(UNSAFE_PATH_PREFIXES) or nm in UNSAFE_NAMES:
+                fam_prop = {'map': ['C04'], 'set': ['C05'], 'key': ['C06'], 'seg': ['C03']}.get(fn.family, [])
+                if nm in ('zeroed', 'uninitialized', 'assume_init', 'assume_init_read', 'assume_init_ref', 'assume_init_mut'):
+                    # a value conjured without its constructor: invalid for types with a validity invariant (a reference, NonZero..):
+                    # the standard library aborts the construction at run time
+                    ctx.add(RULE, fn, 'unsafe-surface(%s)' % nm, 'violation',
+                            '%s makes up a value of a caller-chosen type without constructing it: for a type that has no all-zero / uninitialised value (anything holding a reference, a NonZero, a bool-like enum without 0) the standard library panics right there' % path,
+                            ['C10'], span_line(c, fn.line))
+                    continue
+                ctx.add(RULE, fn, 'unsafe-surface(%s)' % nm, 'violation',
+                        'undecided: %s is an unsafe (or ownership-bending) operation outside the one idiom the rules account for (unchecked element access): who owns, initialises and drops what the arena holds is no longer decided by the compiler, and not by any rule here' % path,
+                        ['C10', 'C11'] + fam_prop, span_line(c, fn.line))
+    ctx.add(RULE, None, 'unsafe-surface', 'ok', 'unchecked element accesses: %d call sites, each decided by NULL / PROVENANCE / UNCHECKED; every other unsafe or ownership-bending operation of the crate is reported on its own' % n_surface, ['C10', 'C11'], nontrivial=True)
+    if n_surface < 12:
+        ctx.anchor_missing(RULE, 'unchecked element accesses', ['C10'], n_surface, 12)
